@@ -322,6 +322,11 @@ impl<T: Qcow2IoOps> Qcow2Dev<T> {
                     .await?;
 
                 if compressed {
+                    // the new mapping has to be durable before the old
+                    // clusters are released, otherwise the old mapping on disk
+                    // may point to free clusters after crash
+                    self.call_fsync(0, usize::MAX, 0).await?;
+
                     // free clusters in original compressed mapping
                     // finally, this update needn't be flushed immediately,
                     // and can be update in ram
